@@ -145,20 +145,26 @@ Definition total (fs : list fragrun) : N := sumN (map fr_sample_count fs).
 Lemma total_cons f fs : total (f :: fs) = fr_sample_count f + total fs.
 Proof. reflexivity. Qed.
 
+(** a fragment without a run is skipped by the code; it counts for nothing in [total] because its
+    sample count is 0 *)
 Lemma frag_sample_count_fold fs : forall acc,
-  (forall f, In f fs -> fr_has_trun f = true) -> acc + total fs < U32 - 1 ->
+  (forall f, In f fs -> fr_has_trun f = false -> fr_sample_count f = 0) -> acc + total fs < U32 - 1 ->
   fold_left (fun acc f => if fr_has_trun f then sat_add U32 acc (fr_sample_count f) else acc) fs acc
   = acc + total fs.
 Proof.
   induction fs as [|f fs IH]; intros acc Ht Hb.
   - cbn [fold_left]. unfold total, sumN. cbn [map fold_right]. lia.
-  - cbn [fold_left]. rewrite (Ht f) by (left; reflexivity). rewrite total_cons in *.
-    unfold sat_add. destruct (N.ltb_spec (acc + fr_sample_count f) U32); [|lia].
-    rewrite IH; [lia| |lia]. intros g Hg. apply Ht. now right.
+  - cbn [fold_left]. rewrite total_cons in *.
+    assert (Hrest : forall g, In g fs -> fr_has_trun g = false -> fr_sample_count g = 0)
+      by (intros g Hg; apply Ht; now right).
+    destruct (fr_has_trun f) eqn:Etrun.
+    + unfold sat_add. destruct (N.ltb_spec (acc + fr_sample_count f) U32); [|lia].
+      rewrite IH; [lia|exact Hrest|lia].
+    + rewrite (Ht f (or_introl eq_refl) Etrun) in *. rewrite IH; [lia|exact Hrest|lia].
 Qed.
 
 Lemma find_traf_from_spec {X} (E : fragrun -> list X) fs : forall idx offset g,
-  (forall f, In f fs -> fr_has_trun f = true /\ lenN (E f) = fr_sample_count f) ->
+  (forall f, In f fs -> (fr_has_trun f = false -> fr_sample_count f = 0) /\ lenN (E f) = fr_sample_count f) ->
   offset <= g -> offset + total fs < U32 ->
   (g - offset < total fs ->
      exists i f j, find_traf_from fs idx offset g = Some (idx + i, j) /\ nthN fs i = Some f /\
@@ -169,7 +175,19 @@ Proof.
   induction fs as [|f fs IH]; intros idx offset g Hall Hle Hb.
   - split; [|reflexivity]. unfold total, sumN; cbn [map fold_right]. lia.
   - destruct (Hall f (or_introl eq_refl)) as [Ht Hl].
-    cbn [find_traf_from]. rewrite Ht. rewrite total_cons in *.
+    cbn [find_traf_from]. rewrite total_cons in *.
+    destruct (fr_has_trun f) eqn:Etrun; cycle 1.
+    { (* no run: the search walks over the fragment; the index keeps counting *)
+      specialize (Ht eq_refl). rewrite Ht in *. apply lenN_0_nil in Hl.
+      destruct (IH (idx + 1) offset g) as [IH1 IH2];
+        [intros f' Hf'; apply Hall; now right|lia|lia|].
+      split.
+      * intros Hlt. destruct IH1 as (i & f' & j & E1 & E2 & E3 & E4 & E5); [lia|].
+        exists (i + 1), f', j. split; [rewrite E1; f_equal; f_equal; lia|].
+        split; [rewrite nthN_cons_pos by lia; replace (i + 1 - 1) with i by lia; exact E2|].
+        split; [exact E3|]. split; [exact E4|].
+        cbn [flat_map]. rewrite Hl. cbn [app]. exact E5.
+      * intros Hge'. apply IH2. lia. }
     destruct (N.ltb_spec (g - offset) (fr_sample_count f)) as [Hlt|Hge].
     + split; [intros _|lia]. exists 0, f, (g - offset).
       split; [f_equal; f_equal; lia|]. split; [reflexivity|]. split; [exact Hlt|]. split; [lia|].
@@ -199,8 +217,7 @@ Proof.
   destruct (c <? 0x80000000); reflexivity.
 Qed.
 
-Lemma run_consistent_parts d f : run_consistent d f = true ->
-  fr_has_trun f = true /\
+Lemma run_consistent_parts d f : run_consistent d f = true -> fr_has_trun f = true ->
   lenN (fr_sizes f) = fr_sample_count f /\
   (if run_has_durations f then lenN (fr_durations f) = fr_sample_count f else fr_durations f = []) /\
   (fr_cts f = [] \/ lenN (fr_cts f) = fr_sample_count f) /\
@@ -209,16 +226,16 @@ Lemma run_consistent_parts d f : run_consistent d f = true ->
   fr_sample_count f < U32 /\
   (forall o s t du c, In (o, s, t, du, c) (run_samples f d) -> (0 <= o < Z.of_N U64)%Z /\ t < U64).
 Proof.
-  unfold run_consistent. intros H.
+  unfold run_consistent. intros H Htrun. rewrite Htrun in H. unfold with_run_consistent in H.
   apply andb_true_iff in H as [H Hsamp]. apply andb_true_iff in H as [H _].
   apply andb_true_iff in H as [H _]. apply andb_true_iff in H as [H _].
   apply andb_true_iff in H as [H _]. apply andb_true_iff in H as [H Hcnt].
-  apply andb_true_iff in H as [H _]. apply andb_true_iff in H as [H _].
-  apply andb_true_iff in H as [H Hdd]. apply andb_true_iff in H as [H _].
-  apply andb_true_iff in H as [H _]. apply andb_true_iff in H as [H Htfdt].
-  apply andb_true_iff in H as [H Hcts]. apply andb_true_iff in H as [H Hdur].
-  apply andb_true_iff in H as [Htrun Hsz].
-  split; [exact Htrun|]. split; [now apply N.eqb_eq|].
+  apply andb_true_iff in H as [H _]. apply andb_true_iff in H as [H Hhdr].
+  apply andb_true_iff in H as [H Htfdt].
+  apply andb_true_iff in H as [H Hcts]. apply andb_true_iff in H as [Hsz Hdur].
+  unfold header_fits in Hhdr.
+  apply andb_true_iff in Hhdr as [Hhdr _]. apply andb_true_iff in Hhdr as [_ Hdd].
+  split; [now apply N.eqb_eq|].
   split. { destruct (run_has_durations f); [now apply N.eqb_eq|]. destruct (fr_durations f); [reflexivity|discriminate]. }
   split. { destruct (fr_cts f) as [|c0 l]; [now left|right; now apply N.eqb_eq]. }
   split. { destruct (fr_tfdt f) as [t|]; [now exists t|discriminate]. }
@@ -229,14 +246,52 @@ Proof.
   apply Z.leb_le in Ho1. apply Z.ltb_lt in Ho2. apply N.ltb_lt in Ht. lia.
 Qed.
 
-Lemma run_samples_len d f : run_consistent d f = true -> lenN (run_samples f d) = fr_sample_count f.
+(** a consistent fragment without a run has sample count 0 and no run data *)
+Lemma run_consistent_without_run d f : run_consistent d f = true -> fr_has_trun f = false ->
+  fr_sample_count f = 0 /\ fr_sizes f = [] /\ fr_durations f = [] /\ fr_cts f = [] /\
+  fr_flags f = 0 /\ fr_data_offset f = None.
 Proof.
-  intros H. destruct (run_consistent_parts d f H) as (_ & Hsz & Hdur & Hcts & _).
+  unfold run_consistent. intros H Htrun. rewrite Htrun in H. unfold without_run_consistent in H.
+  apply andb_true_iff in H as [H _]. apply andb_true_iff in H as [H Hdo].
+  apply andb_true_iff in H as [H Hfl]. apply andb_true_iff in H as [H Hcts].
+  apply andb_true_iff in H as [H Hdur]. apply andb_true_iff in H as [Hcnt Hsz].
+  apply N.eqb_eq in Hcnt, Hfl.
+  repeat split; try assumption.
+  - destruct (fr_sizes f); [reflexivity|discriminate].
+  - destruct (fr_durations f); [reflexivity|discriminate].
+  - destruct (fr_cts f); [reflexivity|discriminate].
+  - destruct (fr_data_offset f); [discriminate|reflexivity].
+Qed.
+
+Lemma run_consistent_count0 d f : run_consistent d f = true -> fr_has_trun f = false -> fr_sample_count f = 0.
+Proof. intros H Ht. apply (run_consistent_without_run d f H Ht). Qed.
+
+(** a fragment that holds a sample has a run *)
+Lemma run_consistent_has_trun d f j : run_consistent d f = true -> j < fr_sample_count f -> fr_has_trun f = true.
+Proof.
+  intros H Hj. destruct (fr_has_trun f) eqn:E; [reflexivity|].
+  rewrite (run_consistent_count0 d f H E) in Hj. lia.
+Qed.
+
+Lemma run_samples_len d f : run_consistent d f = true -> fr_has_trun f = true ->
+  lenN (run_samples f d) = fr_sample_count f.
+Proof.
+  intros H Htrun. destruct (run_consistent_parts d f H Htrun) as (Hsz & Hdur & Hcts & _).
   unfold run_samples. rewrite lay_out_len; [exact Hsz| |].
   - unfold run_durations. destruct (run_has_durations f); [lia|apply lenN_map].
   - unfold run_cts. destruct Hcts as [->|Hc]; [apply lenN_map|].
     destruct (fr_cts f) as [|c0 l] eqn:E; [apply lenN_map|]. rewrite lenN_map. lia.
 Qed.
+
+Lemma frag_samples_len d f : run_consistent d f = true -> lenN (frag_samples f d) = fr_sample_count f.
+Proof.
+  intros H. unfold frag_samples. destruct (fr_has_trun f) eqn:E.
+  - now apply run_samples_len.
+  - now rewrite (run_consistent_count0 d f H E).
+Qed.
+
+Lemma frag_samples_with_run d f : fr_has_trun f = true -> frag_samples f d = run_samples f d.
+Proof. intros H. unfold frag_samples. now rewrite H. Qed.
 
 (** the bodies of the model's fragmented branches once the run [f] and the index [j] in it are known *)
 Definition offset_body (m : mode) (f : fragrun) (j k : N) : res N :=
@@ -287,8 +342,9 @@ Lemma run_sample_sound m d f j k :
     cts_body f j = c.
 Proof.
   intros Hd Hc Hj Hjk.
-  pose proof (run_samples_len d f Hc) as Hlen.
-  destruct (run_consistent_parts d f Hc) as (Htrun & Hsz & Hdur & Hcts & (t0 & Htfdt) & Hdd & Hcnt & Hbounds).
+  pose proof (run_consistent_has_trun d f j Hc Hj) as Htrun.
+  pose proof (run_samples_len d f Hc Htrun) as Hlen.
+  destruct (run_consistent_parts d f Hc Htrun) as (Hsz & Hdur & Hcts & (t0 & Htfdt) & Hdd & Hcnt & Hbounds).
   destruct (nthN_lt (run_samples f d) j) as ([[[[o s] t] du] c] & Hnth); [lia|].
   destruct (nthN_lt (run_samples f d) 0) as ([[[[o0 s0] t00] du0] c0] & Hnth0); [lia|].
   exists o, s, t, du, c. split; [exact Hnth|].
@@ -415,7 +471,7 @@ Lemma frag_expand_len fs dflt : (forall f, In f fs -> run_consistent dflt f = tr
 Proof.
   induction fs as [|f fs IH]; intros H; [reflexivity|].
   unfold frag_expand in *. cbn [flat_map]. rewrite lenN_app, lenN_map, total_cons.
-  rewrite run_samples_len by (apply H; now left). rewrite IH; [reflexivity|].
+  rewrite frag_samples_len by (apply H; now left). rewrite IH; [reflexivity|].
   intros g Hg. apply H. now right.
 Qed.
 
@@ -426,7 +482,7 @@ Proof.
   intros Hne Hc. destruct (frag_consistent_parts _ _ Hc) as (Hd & Hall & Ht).
   rewrite sample_count_frag by exact Hne. rewrite frag_expand_len by exact Hall.
   split; [|reflexivity]. unfold frag_sample_count. rewrite frag_sample_count_fold; [lia| |lia].
-  intros f Hf. apply (run_consistent_parts dflt f). now apply Hall.
+  intros f Hf. apply (run_consistent_count0 dflt f). now apply Hall.
 Qed.
 
 Lemma frag_locate fs dflt k : frag_consistent fs dflt = true ->
@@ -437,16 +493,18 @@ Lemma frag_locate fs dflt k : frag_consistent fs dflt = true ->
   (total fs < k -> find_traf_from fs 0 0 (k - 1) = None).
 Proof.
   intros Hc. destruct (frag_consistent_parts _ _ Hc) as (Hd & Hall & Ht).
-  destruct (find_traf_from_spec (fun f => map sample_to_N (run_samples f dflt)) fs 0 0 (k - 1)) as [H1 H2].
-  - intros f Hf. split; [apply (run_consistent_parts dflt f); now apply Hall|].
-    rewrite lenN_map. apply run_samples_len. now apply Hall.
+  destruct (find_traf_from_spec (fun f => map sample_to_N (frag_samples f dflt)) fs 0 0 (k - 1)) as [H1 H2].
+  - intros f Hf. split; [apply (run_consistent_count0 dflt f); now apply Hall|].
+    rewrite lenN_map. apply frag_samples_len. now apply Hall.
   - lia.
   - lia.
   - split.
     + intros Hk. destruct H1 as (i & f & j & E1 & E2 & E3 & E4 & E5); [lia|].
       exists i, f, j. rewrite N.add_0_l in E1. rewrite N.sub_0_r in E5.
-      split; [exact E1|]. split; [exact E2|]. split; [apply Hall; eapply nthN_In; exact E2|].
-      split; [exact E3|]. split; [lia|]. unfold frag_expand. rewrite E5. apply nthN_map.
+      assert (Hrc : run_consistent dflt f = true) by (apply Hall; eapply nthN_In; exact E2).
+      split; [exact E1|]. split; [exact E2|]. split; [exact Hrc|].
+      split; [exact E3|]. split; [lia|]. unfold frag_expand. rewrite E5.
+      rewrite (frag_samples_with_run dflt f (run_consistent_has_trun dflt f j Hrc E3)). apply nthN_map.
     + intros Hk. apply H2. lia.
 Qed.
 
@@ -573,6 +631,14 @@ Lemma frag_out_of_range_weak m id tb fs dflt k : fs <> [] -> frag_consistent fs 
   end.
 Proof. intros Hne Hc Hk s. rewrite (frag_out_of_range m id tb fs dflt k Hne Hc Hk s). exact I. Qed.
 
+(** the specification on a fragment without a run: it contributes no sample *)
+Lemma frag_expand_without_run f fs d : fr_has_trun f = false -> frag_expand (f :: fs) d = frag_expand fs d.
+Proof. intros H. unfold frag_expand, frag_samples. cbn [flat_map]. rewrite H. reflexivity. Qed.
+
+Lemma frag_expand_with_run f fs d : fr_has_trun f = true ->
+  frag_expand (f :: fs) d = map sample_to_N (run_samples f d) ++ frag_expand fs d.
+Proof. intros H. unfold frag_expand, frag_samples. cbn [flat_map]. rewrite H. reflexivity. Qed.
+
 (** the specification in closed form: sample [j] of a consistent run *)
 Lemma run_samples_closed_form d f j : run_consistent d f = true -> j < fr_sample_count f ->
   exists s du c,
@@ -581,7 +647,7 @@ Lemma run_samples_closed_form d f j : run_consistent d f = true -> j < fr_sample
       Some ((run_data_start f + Z.of_N (sumN (firstn (N.to_nat j) (fr_sizes f))))%Z, s,
             run_decode_start f + sumN (firstn (N.to_nat j) (run_durations f d)), du, c).
 Proof.
-  intros Hc Hj. pose proof (run_samples_len d f Hc) as Hlen.
+  intros Hc Hj. pose proof (run_samples_len d f Hc (run_consistent_has_trun d f j Hc Hj)) as Hlen.
   destruct (nthN_lt (run_samples f d) j) as (x & Hx); [lia|].
   rewrite Hx. unfold run_samples in Hx. apply lay_out_nth in Hx as (s & du & c & H1 & H2 & H3 & ->).
   exists s, du, c. auto.
